@@ -73,6 +73,15 @@ bool Interp::exec_coll(Interp &I, const Stmt &s)
         I.env[s.dst] = PortVal{out.template as<S_TSD>().erased(), PT::Other, "tsd"};
         return true;
     }
+    if (s.op == "maperr")
+    {
+        // maperr <map output> uid=<mirror uid>: per-key error capture on the map node, mirrored tick by tick
+        PortVal m = I.get(a.at(0));
+        using S_DERR = TSD<Int, TS<NodeError>>;
+        auto e = exception_time_series(Port<S_TSD>{w, m.ref});
+        wire<CMirror<S_DERR>>(w, e, uid);
+        return true;
+    }
     if (s.op == "reduce")
     {
         WiredFn f = wired_fn_for(s.kws("fn", "sum"));
